@@ -1,5 +1,5 @@
 """C03 - chain rule over arbitrary graphs; each op differentiated once."""
-LEVEL = "other"
+LEVEL = "proof"
 
 
 def check(rep, tier):
